@@ -739,11 +739,12 @@ _INLINED = []     # names of helpers whose body was substituted for a call (coll
 
 
 def _rule_vocabulary():
-    """identifiers the rules themselves name (anchor keys "path.py:func", callee names they look for): a function the rules know by name is never inlined away,
-    even when a refactoring turns it into a one-liner - the rules want to see the call"""
+    """functions the rules themselves name: anchor keys "uxarray/x/y.py:Class.func" protect that function of that file; a string that is nothing but an identifier
+    ("close_face_nodes", "_replace_fill_values" in a tuple of callee names) protects every function of that name.  A function the rules know by name is never inlined
+    away, even when a refactoring turns it into a one-liner - the rules want to see the call.  Free text (messages) protects nothing."""
     import os
     import re
-    out = set()
+    qualified, bare = set(), set()
     root = os.path.dirname(os.path.abspath(__file__))
     for dp, _dn, fns in os.walk(root):
         for fn in fns:
@@ -754,20 +755,45 @@ def _rule_vocabulary():
             except SyntaxError:
                 continue
             for n in ast.walk(tree):
-                if isinstance(n, ast.Constant) and isinstance(n.value, str) and len(n.value) < 200:
-                    for tok in re.findall(r"[A-Za-z_][A-Za-z0-9_]{3,}", n.value):
-                        out.add(tok)
-    return out
+                vals = []
+                if isinstance(n, ast.Constant) and isinstance(n.value, str):
+                    vals = [n.value]
+                elif isinstance(n, ast.JoinedStr):
+                    # f"{CONN}:_build_edge_node_connectivity": keep the literal tail after the colon
+                    lit = "".join(v.value for v in n.values if isinstance(v, ast.Constant) and isinstance(v.value, str))
+                    vals = [lit]
+                for v in vals:
+                    if len(v) > 200:
+                        continue
+                    for m in re.finditer(r"(?:([A-Za-z0-9_/]+\.py))?:([A-Za-z_][A-Za-z0-9_]*(?:\.[A-Za-z_][A-Za-z0-9_]*)?)", v):
+                        path, qual = m.group(1), m.group(2)
+                        qualified.add((path, qual.split(".")[-1], qual.split(".")[0] if "." in qual else None))
+                    if re.fullmatch(r"_?[a-z][a-z0-9_]{3,}", v):
+                        bare.add(v)
+    return qualified, bare
 
 
 _VOCAB = None
+_RELPATH = [None]     # relpath of the module being normalised (set by normalise())
 
 
-def _protected(name):
+def _protected(name, cls=None):
     global _VOCAB
     if _VOCAB is None:
         _VOCAB = _rule_vocabulary()
-    return name in _VOCAB
+    qualified, bare = _VOCAB
+    if name in bare:
+        return True
+    rel = _RELPATH[0]
+    for path, fn, c in qualified:
+        if fn != name:
+            continue
+        if path is not None and rel is not None and not rel.endswith(path) and not path.endswith(rel):
+            continue
+        if c is not None and cls is not None and c != cls:
+            continue
+        return True
+    return False
 
 
 def _inline_wrappers(tree):
@@ -880,7 +906,7 @@ def _inline_wrappers(tree):
         if not (isinstance(call.func, ast.Attribute) and isinstance(call.func.value, ast.Name) and call.func.value.id == selfn):
             return None
         h = cls_methods.get((id(cd), call.func.attr))
-        if h is None or h is w or not h.args.args or _protected(h.name):
+        if h is None or h is w or not h.args.args or _protected(h.name, cd.name):
             return None
         # rewrite as a call of a plain function with self passed explicitly, then reuse the module-level machinery
         fake = ast.Call(func=ast.Name(id="__method__", ctx=ast.Load()), args=[ast.Name(id=selfn, ctx=ast.Load())] + list(call.args), keywords=list(call.keywords))
@@ -1119,8 +1145,9 @@ def _inline_noreturn(tree):
     return done
 
 
-def normalise(tree):
+def normalise(tree, relpath=None):
     del _INLINED[:]
+    _RELPATH[0] = relpath
     n_alias = n_upd = 0
     n_dict = 0
     for fn in [n for n in ast.walk(tree) if isinstance(n, (ast.FunctionDef, ast.AsyncFunctionDef))]:
